@@ -16,7 +16,7 @@ LEVEL = "exploration"
 RULE = (
     "case = (timeout T, cancel instant tc in {never, before the call, grid}, matching-response instant tr in {never, grid}, background traffic "
     "{none, bursts of notifications, flood every 10 ms, other-id responses}, progress stream [(t, token right/foreign/missing, fields)], "
-    "callback raising at chosen positions, optionally a follow-up request pending on the same connection while late progress for the finished one arrives) on a 10 ms virtual-time grid biased to poll boundaries, the deadline and each other; "
+    "callback raising at chosen positions, optionally a follow-up request pending on the same connection while late progress for the finished one arrives; callback given as async def / callable object / partial / plain function returning the coroutine; the token shared with a sibling request or reused by a retry) on a 10 ms virtual-time grid biased to poll boundaries, the deadline and each other; "
     "oracle = reference timeline of allowed outcomes; non-trivial = two of {cancel, response, deadline} within 0.5 s of each other, "
     "or a flood, or >=2 progress notifications with a raising callback; distinct = distinct full case"
 )
@@ -52,11 +52,32 @@ def check(case: Dict[str, Any]) -> Outcome:
     token = CancellationToken() if use_token else None
     calls: List[Tuple[float, Any, Any, Any]] = []
 
-    async def cb(progress, total, message):
+    async def _cb(progress, total, message):
         idx = len(calls)
         calls.append((asyncio.get_running_loop().time(), progress, total, message))
         if idx in raise_at:
             raise RuntimeError(f"callback failure {idx}")
+
+    # the callback may be any callable that returns an awaitable, not only a plain `async def` function
+    shape = case.get("cb_shape", "async_def")
+    if shape == "callable_object":
+        class _CB:
+            async def __call__(self, progress, total, message):
+                return await _cb(progress, total, message)
+
+        cb: Any = _CB()
+    elif shape == "partial":
+        import functools
+
+        async def _cb4(tag, progress, total, message):
+            return await _cb(progress, total, message)
+
+        cb = functools.partial(_cb4, "tag")
+    elif shape == "sync_wrapper":
+        def cb(progress, total, message):  # an ordinary function handing back the coroutine (a decorator that is not async-aware)
+            return _cb(progress, total, message)
+    else:
+        cb = _cb
 
     payload = {"ok": True, "n": 1}
     schedule: List[Tuple[float, Any]] = []
@@ -111,14 +132,52 @@ def check(case: Dict[str, Any]) -> Outcome:
     async def cb2(progress, total, message):
         calls2.append((asyncio.get_running_loop().time(), progress, total, message))
 
+    shared: Dict[str, Any] = {}
+
+    async def sibling(r, w):
+        # a second request governed by the same cancellation token (a batch of calls cancelled together), on a
+        # connection of its own so that the two do not compete for the same incoming messages
+        import math
+
+        import anyio
+
+        loop = asyncio.get_running_loop()
+        _in_send, r = anyio.create_memory_object_stream(math.inf)
+        w, _out_recv = anyio.create_memory_object_stream(math.inf)
+        shared["out_recv"] = _out_recv
+        try:
+            v = await send_message(r, w, "work/sibling", None, timeout=T, message_id="req-14c", cancellation_token=token)
+            shared["outcome"] = ("return", v, loop.time())
+        except BaseException as e:  # noqa
+            shared["outcome"] = (type(e).__name__, e, loop.time())
+            if isinstance(e, asyncio.CancelledError):
+                raise
+
     async def call(r, w):
+        sib = asyncio.ensure_future(sibling(r, w)) if (case.get("shared_token") and token is not None) else None
         try:
             return await send_message(
                 r, w, "work/do", user_params, timeout=T, message_id="req-14",
                 cancellation_token=token, progress_callback=cb if use_cb else None,
             )
         finally:
-            first_end["t"] = asyncio.get_running_loop().time()
+            first_end.setdefault("t", asyncio.get_running_loop().time())
+            if sib is not None:
+                try:
+                    await asyncio.wait([sib], timeout=T + 1.0)
+                finally:
+                    sib.cancel()
+            if case.get("retry_same_token") and token is not None:
+                # a retry wrapper calls again with the very same token
+                loop = asyncio.get_running_loop()
+                try:
+                    v = await send_message(r, w, "work/retry", None, timeout=0.6, message_id="req-14r", cancellation_token=token)
+                    shared["retry"] = ("return", v, loop.time())
+                except BaseException as e:  # noqa
+                    shared["retry"] = (type(e).__name__, e, loop.time())
+                    if isinstance(e, asyncio.CancelledError):
+                        raise
+            first_end.setdefault("t", asyncio.get_running_loop().time())
             if follow_up:
                 # the application carries on: another request on the same connection is pending while
                 # late traffic for the finished one keeps arriving
@@ -142,7 +201,7 @@ def check(case: Dict[str, Any]) -> Outcome:
         "resp:" + ("none" if tr is None else "timed"),
         f"progress:{min(len(prog), 3)}",
         "cb-raises" if raise_at else "cb-ok",
-    ) + (("follow-up-request",) if follow_up else ())
+    ) + (("follow-up-request",) if follow_up else ()) + ((f"cb:{shape}",) if shape != "async_def" else ()) + (("shared-token",) if case.get("shared_token") or case.get("retry_same_token") else ())
 
     def obs() -> str:
         if res.outcome == "return":
@@ -206,8 +265,36 @@ def check(case: Dict[str, Any]) -> Outcome:
     writes = [w for _, w in res.written]
     reqs = [w for w in writes if isinstance(w, dict) and w.get("method") == "work/do"]
     canc = [w for w in writes if isinstance(w, dict) and w.get("method") == "notifications/cancelled"]
-    nxt = [w for w in writes if isinstance(w, dict) and w.get("method") == "work/next"]
-    rest = [w for w in writes if w not in reqs and w not in canc and w not in nxt]
+    nxt = [w for w in writes if isinstance(w, dict) and w.get("method") in ("work/next", "work/sibling", "work/retry")]
+    canc_other = [w for w in canc if (w.get("params") or {}).get("requestId") in ("req-14c", "req-14r")]
+    canc = [w for w in canc if w not in canc_other]
+    rest = [w for w in writes if w not in reqs and w not in canc and w not in nxt and w not in canc_other]
+    # ---- requests that share the token
+    sib_o = shared.get("outcome")
+    sib_writes: List[Any] = []
+    if shared.get("out_recv") is not None:
+        while True:
+            try:
+                m_ = shared["out_recv"].receive_nowait()
+            except Exception:
+                break
+            sib_writes.append(m_.model_dump(exclude_none=True) if hasattr(m_, "model_dump") else m_)
+        canc_other = canc_other + [w for w in sib_writes if isinstance(w, dict) and w.get("method") == "notifications/cancelled"]
+    if sib_o is not None and tc is not None:
+        sib_written = any(isinstance(w, dict) and w.get("method") == "work/sibling" for w in sib_writes)
+        if cancelled_before:
+            if sib_written or sib_o[0] != "CancelledError":
+                out.fail("shared-token:second-request-not-cancelled-before-sending", f"token cancelled before the calls; sibling written={sib_written} outcome={sib_o[0]}")
+        elif tc + POLL < T - EPS:
+            if sib_o[0] != "CancelledError" or not (tc - EPS <= sib_o[2] <= tc + POLL + EPS):
+                out.fail("shared-token:second-request-not-cancelled-within-a-poll-interval", f"cancel at {tc}: sibling ended {sib_o[0]}@{sib_o[2]}")
+            elif len([w for w in canc_other if (w.get("params") or {}).get("requestId") == "req-14c"]) != 1:
+                out.fail("shared-token:cancelled-notification-count", f"sibling cancelled but {len(canc_other)} notifications name it")
+    ret_o = shared.get("retry")
+    if ret_o is not None and token is not None and tc is not None and (cancelled_before or tc < t_end - EPS):
+        # the token is already cancelled when the retry starts: it must not be sent
+        if any(w.get("method") == "work/retry" for w in nxt) or ret_o[0] != "CancelledError":
+            out.fail("shared-token:retry-with-cancelled-token-was-sent", f"retry outcome={ret_o[0]} written={any(w.get('method') == 'work/retry' for w in nxt)}")
     if follow_up and calls2:
         out.fail("progress-callback-of-another-request-invoked", f"the follow-up request's callback got {calls2[:2]!r} although no notification bears its token")
     if rest:
@@ -322,7 +409,15 @@ def cases(draw):
     cb_raise = draw(st.lists(st.integers(0, 4), max_size=3, unique=True)) if nprog else []
     case = {"T": Tcs, "tc": tc, "tr": tr, "bg": bg, "progress": prog, "cb_raise": sorted(cb_raise),
             "use_cb": draw(st.sampled_from([True, True, True, False])), "use_token": draw(st.booleans())}
-    if draw(st.integers(0, 3)) == 0:
+    if draw(st.integers(0, 2)) == 0:
+        case["cb_shape"] = draw(st.sampled_from(["callable_object", "partial", "sync_wrapper"]))
+    if case["use_token"] or tc is not None:
+        r_ = draw(st.integers(0, 5))
+        if r_ == 0:
+            case["shared_token"] = True
+        elif r_ == 1:
+            case["retry_same_token"] = True
+    if draw(st.integers(0, 3)) == 0 and not case.get("retry_same_token"):
         case["follow_up"] = True
         # traffic for the finished request while the next one is pending
         for off in draw(st.lists(st.sampled_from([1, 10, 30, 55, 90]), max_size=2, unique=True)):
@@ -355,6 +450,9 @@ def job_grid(col: Collector, seed: int, tier: str, shard: int, nshards: int) -> 
                         "cb_raise": [0], "use_cb": True, "use_token": True}
                 col.record(case, check(case))
                 if bgk == "none":
+                    for extra in ({"cb_shape": "callable_object"}, {"cb_shape": "sync_wrapper"}, {"shared_token": True}, {"retry_same_token": True}):
+                        c2 = dict(case, **extra)
+                        col.record(c2, check(c2))
                     case = dict(case, follow_up=True, progress=case["progress"] + [[125, "right", ["progress"], [10, None, None]], [150, "right", ["progress", "total"], [11, 12, None]]])
                     col.record(case, check(case))
     # a long, quiet wait: cancel placed after k idle poll intervals, k = 0..11, at three offsets inside the interval
